@@ -65,6 +65,11 @@ pub enum Kind {
     /// the redirected descriptors (except 1, its own pipe)
     BuiltinAssign,
     FuncAssign,
+    /// `( trap 'io ...' EXIT; exec nosuch_cmd REDIRS )`: the redirections of an
+    /// `exec` persist also when it has a command operand, which cannot be
+    /// executed here: the subshell leaves with them in effect, as its EXIT
+    /// trap sees; the parent is not affected
+    ExecCmd,
 }
 
 #[derive(Clone, Debug, Serialize, Deserialize, PartialEq)]
@@ -192,6 +197,8 @@ pub fn generate(rng: &mut Rng, tier: Tier) -> Case {
                 Kind::BuiltinAssign,
                 Kind::FuncAssign,
                 Kind::FuncAssign,
+                Kind::ExecCmd,
+                Kind::ExecCmd,
             ]),
             3..=4 => Kind::Dot,
             5..=6 => Kind::Func,
@@ -212,7 +219,7 @@ pub fn generate(rng: &mut Rng, tier: Tier) -> Case {
             _ => rng.range(0, 4),
         };
         let mut redirs: Vec<Redir> = (0..nr).map(|_| gen_redir(rng, &mut word, as_file)).collect();
-        if matches!(kind, Kind::Exec | Kind::Eval | Kind::Colon) && !last {
+        if matches!(kind, Kind::Exec | Kind::Eval | Kind::Colon) && !last || kind == Kind::ExecCmd {
             // a failing redirection on a special built-in makes the shell exit;
             // keep those for the final command and use benign operands here
             for r in &mut redirs {
@@ -327,6 +334,7 @@ pub fn render(c: &Case) -> String {
                     Kind::IfC => format!("if rc 0; then io {o}; fi {rs}"),
                     Kind::ForC => format!("for i in 1; do io {o}; done {rs}"),
                     Kind::Subshell => format!("( io {o} ) {rs}"),
+                    Kind::ExecCmd => format!("( trap 'io {o}' EXIT; exec nosuch_cmd {rs} )"),
                     Kind::Eval => format!("eval 'io {o}' {rs}"),
                     Kind::Command => format!("command io {o} {rs}"),
                     Kind::Dot => format!("command . /work/lib{k}.sh {rs}"),
@@ -703,7 +711,8 @@ impl Model {
                 for op in ops {
                     e.results.push(self.io(&fds, op));
                 }
-                e.status_zero = true;
+                // (the utility is not found: the subshell exits with 127)
+                e.status_zero = kind != Kind::ExecCmd;
             }
         }
         e.after = self.fds.clone();
@@ -1197,7 +1206,7 @@ impl Prop for C09 {
         "fault_enumeration"
     }
     fn rule(&self) -> String {
-        "Seeded programs of 2-9 commands; each command is one of 12 kinds (regular built-in, function, brace group, if, for, subshell, eval, command, not-found, redirection-only, exec, `:`) with 0-4 redirections over all operators (< > >| >> <> <&n >&n <&- >&- here-document), target descriptors 0-10, operands existing/missing/missing-directory//dev/null, sources open/closed/wrong-mode/shell-internal, noclobber toggled. A POSIX redirection-table model (descriptions with shared offsets, append, truncation) is stepped alongside and predicts the table seen by the command, I/O results through the redirected descriptors, the persistent table, statuses and final files. Faults ENUMERATED per program: the fault-free run counts the K descriptor allocations (all processes) and the program is re-run K times failing exactly the k-th allocation with EMFILE; plus runs under RLIMIT_NOFILE soft limits 3..16 and seeded schedules with preemption. Under faults only the non-relaxable invariants are checked (table restored after every non-exec command, no descriptor >= 10 left after exec, >=10 <=> close-on-exec, termination). A run is distinct non-trivial if it fired a fault or had >= 2 processes, keyed by (script hash, fault position/limit, schedule hash). Every position at which a write to a regular file can fail with ENOSPC is enumerated as well (up to 12/40 per program); `:` commands carry pathname expansions.".into()
+        "Seeded programs of 2-9 commands; each command is one of 12 kinds (regular built-in, function, brace group, if, for, subshell, eval, command, not-found, redirection-only, exec, `:`; further kinds added later: case, while, function definition with redirections, first and last pipeline stage, command substitution, built-in / function with an assignment prefix, the `.` built-in, and `exec` with a command operand that cannot be executed, observed from the EXIT trap of its subshell) with 0-4 redirections over all operators (< > >| >> <> <&n >&n <&- >&- here-document), target descriptors 0-10, operands existing/missing/missing-directory//dev/null, sources open/closed/wrong-mode/shell-internal, noclobber toggled. A POSIX redirection-table model (descriptions with shared offsets, append, truncation) is stepped alongside and predicts the table seen by the command, I/O results through the redirected descriptors, the persistent table, statuses and final files. Faults ENUMERATED per program: the fault-free run counts the K descriptor allocations (all processes) and the program is re-run K times failing exactly the k-th allocation with EMFILE; plus runs under RLIMIT_NOFILE soft limits 3..16 and seeded schedules with preemption. Under faults only the non-relaxable invariants are checked (table restored after every non-exec command, no descriptor >= 10 left after exec, >=10 <=> close-on-exec, termination). A run is distinct non-trivial if it fired a fault or had >= 2 processes, keyed by (script hash, fault position/limit, schedule hash). Every position at which a write to a regular file can fail with ENOSPC is enumerated as well (up to 12/40 per program); `:` commands carry pathname expansions.".into()
     }
     fn assumptions(&self) -> Vec<String> {
         vec![
